@@ -185,7 +185,7 @@ def run(tier):
     st = ex.stats()
     if tier != "quick":
         ex2 = explorer.Explorer(c01.slice_menu)
-        st2 = ex2.run(3)
+        st2 = ex2.run(2)
         seen = {s.key for s in states}
         add = [s.hist for s in st2 if s.key not in seen]
         hists += add
@@ -212,7 +212,7 @@ def run(tier):
     return run.finish(
         exhaustive=True,
         rule="every pipeline reachable in <= 2 builder calls over the core menu" + (" (quick tier: the first call from a thinner one-per-shape selection of the menu, every later call from the full menu)" if tier == "quick" else "")
-        + (" plus <= 3 over the SQL-translation slice" if tier != "quick" else "")
+        + (" plus <= 2 over the SQL-translation slice" if tier != "quick" else "")
         + " plus <= 3 calls over the shared-DAG slice (a derived node narrowed differently on two paths that are then joined or stacked)"
         + " that leaves some input column unreported x all multisets of <= 2 rows x every perturbation (all-null, each domain constant, reversed, alternating) of the unreported columns, on Pandas and SQLite; plus the narrowed replay on restricted inputs",
     )
